@@ -832,14 +832,13 @@ def rule_getvalue_part(prog, rep, tier, anchor="ast_utils.get_value"):
 
 
 # ---------------------------------------------------------------------------- LIVE-TYPE
-def rule_live_type(prog, rep, tier, entry="parse._inspect"):
+def rule_live_type(prog, rep, tier):
     """LIVE-TYPE (C19): `gen` reads live objects; the annotation of a signature parameter is an *object* (`int`, `typing.Optional[int]`).
     The IR's `typ` is source text that is parsed again later.  `str(int)` is `<class 'int'>`: where a value derived from an
     `.annotation` / `.return_annotation` attribute is formatted into `typ`, a class is written by its name (`__name__` /
     `__qualname__`, under an `isinstance(.., type)` test, or through `inspect.formatannotation`)."""
-    fi0 = prog.fn(entry)
     n = 0
-    for fi in prog.reachable([fi0]):
+    for fi in prog.all_functions():   # wherever the package reads a live signature (a private reader may be renamed or split)
         for st in ast.walk(fi.node):
             if not (isinstance(st, ast.Assign) and any(isinstance(t, ast.Subscript) and isinstance(t.slice, ast.Constant) and t.slice.value == "typ" for t in st.targets)):
                 continue
@@ -873,4 +872,4 @@ def rule_live_type(prog, rep, tier, entry="parse._inspect"):
             else:
                 rep.holds("LIVE-TYPE", inst, loc(prog, st), "a class is written by its name")
     if n == 0:
-        raise AnalysisError("LIVE-TYPE: no assignment of a live annotation to 'typ' found from %s" % entry)
+        raise AnalysisError("LIVE-TYPE: no assignment of a live annotation to 'typ' found in the package")
